@@ -88,6 +88,20 @@ def to_driver(sel, names=None):
     return None
 
 
+def box_to_driver(sel):
+    """the box selector for the model driver's `boxsel` operation (`BoxSel.positions`); None when the model has no form"""
+    t, v = sel["t"], sel["v"]
+    if t == "int":
+        return {"t": "int", "v": int(v)}
+    if t == "slice":
+        return {"t": "slice", "v": [None if x is None else int(x) for x in v]}
+    if t in ("list", "ndarray"):
+        return {"t": "list", "v": [int(x) for x in v]}
+    if t in ("mask", "lmask"):
+        return {"t": "mask", "v": [bool(x) for x in v]}
+    return None
+
+
 def field_selectors(rng, nf, names, exhaustive=True, budget=200):
     """structured field selectors for nf fields"""
     out = []
